@@ -45,6 +45,17 @@ func runC13(c *core.Ctx) {
 			}
 			c.Count("big_inputs_checked", 1)
 		}
+		// Pairs/PairsFunc around block boundaries of a chunked implementation, and all
+		// three helpers over an element type larger than 128 bytes
+		for _, base := range []int{64, 128, 256, 512, 768, 1024, 2048, 4096} {
+			m := base + n%9 - 4
+			if !pairsCheck(c, m) {
+				return
+			}
+		}
+		if !bigElemCheck(c, n) {
+			return
+		}
 		c.Count("exhaustive_sweeps_completed", 1)
 		c.NonTrivial(core.Mix(13, uint64(n)))
 		if c.WantSample() {
@@ -53,6 +64,9 @@ func runC13(c *core.Ctx) {
 		return
 	}
 	n := r.Range(0, 5000)
+	if !pairsCheck(c, n) || !bigElemCheck(c, n%300) {
+		return
+	}
 	for k := 0; k < 12; k++ {
 		var size int
 		switch r.Intn(5) {
@@ -250,6 +264,104 @@ func hugeChunks(c *core.Ctx) bool {
 		if !eqSlice(cl, want) {
 			c.Violate("ChunkFunc:sequence[huge]", fmt.Sprintf("ChunkFunc of %d zero-size elements by %d saw pieces of lengths %v, expected %v", n, size, cl, want), nil)
 			return false
+		}
+	}
+	return true
+}
+
+func pairsCheck(c *core.Ctx, n int) bool {
+	if n < 0 {
+		n = 0
+	}
+	in := make([]int, n, n+1)
+	for i := range in {
+		in[i] = i + 1
+	}
+	var want [][2]int
+	for i := 0; i+1 < n; i++ {
+		want = append(want, [2]int{i + 1, i + 2})
+	}
+	got := slices.Pairs(in)
+	if !eqSlice(got, want) {
+		c.Violate("Pairs:pairs[n-sweep]", fmt.Sprintf("Pairs of %d elements returned %d pairs (expected %d) or wrong contents", n, len(got), len(want)), map[string]any{"n": n})
+		return false
+	}
+	var cb [][2]int
+	slices.PairsFunc(in, func(a, b int) { cb = append(cb, [2]int{a, b}) })
+	if !eqSlice(cb, want) {
+		c.Violate("PairsFunc:sequence[n-sweep]", fmt.Sprintf("PairsFunc over %d elements made %d calls (expected %d) or passed wrong pairs", n, len(cb), len(want)), map[string]any{"n": n})
+		return false
+	}
+	c.Count("pairs_checked", 1)
+	return true
+}
+
+type bigElem [20]int64 // 160 bytes
+
+// bigElemCheck runs the three helpers over a large value type.
+func bigElemCheck(c *core.Ctx, n int) bool {
+	in := make([]bigElem, n)
+	for i := range in {
+		in[i] = bigElem{int64(i + 1), 19: int64(-i - 1)}
+	}
+	ok := func(e bigElem, i int) bool { return e[0] == int64(i+1) && e[19] == int64(-i-1) }
+	ps := slices.Pairs(in)
+	wantPairs := n - 1
+	if wantPairs < 0 {
+		wantPairs = 0
+	}
+	if len(ps) != wantPairs {
+		c.Violate("Pairs:pairs[big-elements]", fmt.Sprintf("Pairs over %d elements of 160 bytes returned %d pairs", n, len(ps)), nil)
+		return false
+	}
+	for i, p := range ps {
+		if !ok(p[0], i) || !ok(p[1], i+1) {
+			c.Violate("Pairs:pairs[big-elements]", fmt.Sprintf("Pairs over %d elements of 160 bytes: pair %d is (%d,%d)", n, i, p[0][0], p[1][0]), nil)
+			return false
+		}
+	}
+	calls := 0
+	bad := -1
+	slices.PairsFunc(in, func(a, b bigElem) {
+		if !ok(a, calls) || !ok(b, calls+1) {
+			bad = calls
+		}
+		calls++
+	})
+	if calls != wantPairs || bad >= 0 {
+		c.Violate("PairsFunc:sequence[big-elements]", fmt.Sprintf("PairsFunc over %d elements of 160 bytes: %d calls, first bad %d", n, calls, bad), nil)
+		return false
+	}
+	for _, size := range []int{1, 2, 3, 7} {
+		total, idx := 0, 0
+		for _, ch := range slices.Chunk(in, size) {
+			for _, e := range ch {
+				if !ok(e, idx) {
+					c.Violate("Chunk:piece[big-elements]", fmt.Sprintf("Chunk(size %d) over %d big elements: element %d wrong", size, n, idx), nil)
+					return false
+				}
+				idx++
+			}
+			total += len(ch)
+		}
+		if total != n {
+			c.Violate("Chunk:concatenation[big-elements]", fmt.Sprintf("Chunk(size %d) over %d big elements covers %d", size, n, total), nil)
+			return false
+		}
+		ws := slices.Windowed(in, size)
+		ww := n - size + 1
+		if ww < 0 {
+			ww = 0
+		}
+		if len(ws) != ww {
+			c.Violate("Windowed:windows[big-elements]", fmt.Sprintf("Windowed(size %d) over %d big elements returned %d windows", size, n, len(ws)), nil)
+			return false
+		}
+		for i, w := range ws {
+			if len(w) != size || !ok(w[0], i) || !ok(w[size-1], i+size-1) {
+				c.Violate("Windowed:windows[big-elements]", fmt.Sprintf("Windowed(size %d) over %d big elements: window %d wrong", size, n, i), nil)
+				return false
+			}
 		}
 	}
 	return true
